@@ -40,17 +40,14 @@ func init() {
 	gen("quick", 2, 1, 0, 0, 1)
 	gen("quick", 1, 2, 1, 1, 0)
 	gen("quick", 2, 1, 0, 0, 0, 6, 7)
-	gen("thorough", 2, 2, 0, 0, 0, 6)
-	gen("thorough", 2, 2, 1, 0, 1)
-	gen("thorough", 3, 1, 1, 1, 0)
-	gen("thorough", 1, 3, 1, 1, 0)
 	zl := func(tier string, blocks, tokens, dyn, w int) {
 		p.Harnesses = append(p.Harnesses, HSpec{Prop: "C16", Pkg: "lib/zlibcut", Dir: "c16z", Func: "VH_C16_ZlibCut", Tier: tier, Cfg: cfg,
 			Label:  fmt.Sprintf("[blocks=%d tokens=%d dyn=%d w=%d]", blocks, tokens, dyn, w),
 			Params: map[string]int{"BLOCKS": blocks, "TOKENS": tokens, "DYN": dyn, "W": w, "LENSYMS": 1, "TAIL": 0}, Reach: []string{"zlib/done", "zlib/error"}})
 	}
 	zl("quick", 1, 2, 0, 1)
-	zl("thorough", 2, 2, 1, 0)
+	// not registered: generator shapes with 2x2, 3x1 or 1x3 blocks x tokens (the first alone used the whole
+	// 90-minute budget; 3x1 did not finish in 10 minutes) - the thorough tier adds the any-bytes harnesses
 	add("VH_C16_Cut", "thorough", 3, 0, 0, "cut/done")
 	add("VH_C16_Robust", "thorough", 3, 0, 0, "robust/done")
 	register(p)
